@@ -199,8 +199,14 @@ impl State {
 
     /// the dictionary: name, kind and content (constants by value)
     pub fn verif_dict(&self) -> Vec<String> {
+        self.verif_dict_from(0)
+    }
+
+    /// the dictionary entries from index `start` on
+    pub fn verif_dict_from(&self, start: usize) -> Vec<String> {
         self.dict
             .iter()
+            .skip(start)
             .map(|e| match &e.entry {
                 Entry::Constant(c) => format!("{} const {}", e.name, verif_render_cell(c)),
                 Entry::Variable(a) => format!("{} var {}", e.name, a.index()),
